@@ -900,6 +900,11 @@ fn oracle_case(c: &Case, fails: &mut Vec<String>, stats: &mut std::collections::
     let mut sh = Shadow { addrs: vec![], joined: BTreeSet::new() };
     // general-query bookkeeping: groups reported since the last IGMP query / table change
     let mut igmp_reported: Vec<[u8; 4]> = vec![];
+    // `settled`: an unlimited poll ran after the last membership / address change (nothing is
+    // Joining or Leaving); `armed`: an IGMP query arrived in a settled state and nothing but polls
+    // followed, so every group may be reported at most once
+    let mut settled = false;
+    let mut armed = false;
     let mut last_t: i64 = 0;
     for op in &c.ops {
         let ws: Vec<&str> = op.split_whitespace().collect();
@@ -928,6 +933,8 @@ fn oracle_case(c: &Case, fails: &mut Vec<String>, stats: &mut std::collections::
                     _ => {}
                 }
                 igmp_reported.clear();
+                settled = false;
+                armed = false;
             }
             "leave" => {
                 let g = ip_p(ws[1]);
@@ -935,6 +942,8 @@ fn oracle_case(c: &Case, fails: &mut Vec<String>, stats: &mut std::collections::
                     sh.joined.remove(&g);
                 }
                 igmp_reported.clear();
+                settled = false;
+                armed = false;
             }
             "addr" => {
                 let cd = cidr_p(ws[2]);
@@ -958,9 +967,12 @@ fn oracle_case(c: &Case, fails: &mut Vec<String>, stats: &mut std::collections::
                     });
                 }
                 igmp_reported.clear();
+                settled = false;
+                armed = false;
             }
             "igmpq" => {
                 igmp_reported.clear();
+                armed = settled;
                 bump("igmp_queries", 1);
             }
             "mldq" => bump("mld_queries", 1),
@@ -985,6 +997,9 @@ fn oracle_case(c: &Case, fails: &mut Vec<String>, stats: &mut std::collections::
             }
             "poll" => {
                 last_t = kv(&ws[1..], "t").parse().unwrap();
+                if ws[1..].iter().any(|w| *w == "budget=-1") {
+                    settled = true;
+                }
                 bump("polls", 1);
                 bump("frames", out.txs.len() as u64);
                 if out.txs.len() > 2 * GROUP_CAP + 2 {
@@ -1009,6 +1024,9 @@ fn oracle_case(c: &Case, fails: &mut Vec<String>, stats: &mut std::collections::
             check_membership(t, &sh, fails);
             if let Kind::IgmpReport(_, g) = &t.kind {
                 if ws[0] == "poll" {
+                    if armed && igmp_reported.contains(g) {
+                        fails.push(format!("mcast-group-reported-twice :: `{}` repeats a report of the same query response", show_tx(t)));
+                    }
                     igmp_reported.push(*g);
                 }
             }
@@ -1031,7 +1049,8 @@ fn oracle_case(c: &Case, fails: &mut Vec<String>, stats: &mut std::collections::
     let mut silent = false;
     let mut total = 0;
     for i in 0..(2 * GROUP_CAP + 4) {
-        let r = catch(std::panic::AssertUnwindSafe(|| apply(&mut n, &format!("poll t={} budget=-1", far + i as i64))));
+        // far apart: a response machine that re-arms its timer must not look silent
+        let r = catch(std::panic::AssertUnwindSafe(|| apply(&mut n, &format!("poll t={} budget=-1", far + 400_000_000 * i as i64))));
         let Some(out) = r else {
             fails.push("mcast-panic :: trailing poll panicked".into());
             return;
